@@ -100,6 +100,7 @@ def op(t):
     if h == "placement": return "OPlacement"
     if h == "iter_nth": return "OIterNth %s %s %s" % (ik(t[1]), nat(t[2]), pat_nth(t[3]))
     if h == "lazy_down": return "OLazyDown %s %s %s" % (n(t[1]), nat(t[2]), n(t[3]))
+    if h == "cursor_max": return "OCursorMax %s %s" % (api(t[1]), pat_ro(t[2]))
     raise ValueError(" ".join(t))
 
 def case_term(line):
